@@ -27,8 +27,16 @@ noinline = lambda f: False  # noqa: E731
 def norm_fp_items(items):
     """Normal form of a hashed / exported octet sequence:
        SLICE(INT(2;x);;1) SLICE(INT(2;x);-1;)  ==  INT(2;x)   (high and low octet of a two-octet number)
-       BYTE(x)                                 ==  INT(1;x)   (one octet either way; x < 256 for every algorithm id)"""
-    its = merge_consts(items)
+       BYTE(x)                                 ==  INT(1;x)   (one octet either way; x < 256 for every algorithm id)
+       BYTE(4), INT(1;4)                       ==  C(04)      (an octet given as a number)"""
+    its = []
+    for it in items:
+        if it[0] == 'BYTE':
+            it = ('INT', '1', it[1])
+        if it[0] == 'INT' and it[1].isdigit() and it[2].isdigit() and 0 < int(it[1]) <= 8 and int(it[2]) < 256 ** int(it[1]):
+            it = ('C', int(it[2]).to_bytes(int(it[1]), 'big'))
+        its.append(it)
+    its = merge_consts(its)
     out = []
     i = 0
     while i < len(its):
@@ -40,8 +48,6 @@ def norm_fp_items(items):
                 out.append(a[1][0])
                 i += 2
                 continue
-        if a[0] == 'BYTE':
-            a = ('INT', '1', a[1])
         out.append(a)
         i += 1
     return out
